@@ -56,7 +56,7 @@ Arith(op, a, b) ==
                    ELSE r
          ELSE LET k == MaxKind(a.k, b.k) IN
               IF op = "**" THEN Unspec       \* powers of inexact numbers: sign/domain not decidable here
-              ELSE Inx(IF k = "int" THEN "float" ELSE k, TBin(op, TermOf(a), TermOf(b)))
+              ELSE Inx(IF k = "int" /\ op = "/" THEN "float" ELSE k, TBin(op, TermOf(a), TermOf(b)))
     [] OTHER -> Unspec
 
 Fns == {"sin", "cos", "tan", "arcsin", "arccos", "arctan", "sinh", "cosh", "tanh",
